@@ -7,7 +7,7 @@ CONSTANTS Family, MaxLen
 VARIABLE it
 Items == CASE Family = "members" -> MemberItems(MaxLen) [] Family = "enums" -> EnumItems(MaxLen) [] Family = "keys" -> KeyItems
            [] Family = "stream" -> StreamItems [] Family = "names" -> NameItems [] Family = "attrs" -> AttrItems
-           [] Family = "attrlists" -> AttrListItems [] Family = "enumorder" -> EnumOrderItems
+           [] Family = "attrlists" -> AttrListItems(MaxLen) [] Family = "enumorder" -> EnumOrderItems
 Init == it \in Items
 Next == UNCHANGED it
 V == Violations(Family, it)
